@@ -101,6 +101,14 @@ def judge(run, cases, res, st):
             p = [s["panic"] for s in c["obs"]["steps"] if s.get("panic")][0]
             run.failing({"kind": "panic", "class": c["class"]}, [c], "the code under test panicked on case %d: %s" % (c["id"], p[:300]),
                         theorem="Secrets.Cases (no panic)")
+    for c in cases:
+        for o in c.get("ops", []):
+            if o["op"] == "upsert" and o["valid"] != o.get("want", o["valid"]):
+                run.failing({"kind": "validator-verdict", "type": o.get("type", ""), "payload": o.get("payload", "")}, [c],
+                            "secrets.ValidateSecret says %s for a %s Secret with payload '%s' built to be %s (case %d)"
+                            % ("valid" if o["valid"] else "invalid", o.get("type", ""), o.get("payload", ""),
+                               "valid" if o.get("want") else "invalid", c["id"]),
+                            theorem="validity oracle of Secrets.Model (vvalid) against the payload catalogue of harness c11")
     for row in res:
         cid, agreeA, spec, nontriv, changes, agreeB = row[:6]
         c = byid[cid]
@@ -175,7 +183,7 @@ def new_stats():
 
 
 def check(run):
-    n = 400 if run.tier == "quick" else 8000
+    n = 1000 if run.tier == "quick" else 20000
     run.proof_obligations()
     binary = C.go_build("c11")
     out = os.path.join(C.WORK, "cases", "c11_%s.jsonl" % run.tier)
@@ -195,6 +203,7 @@ def check(run):
 
 
 def replay(run, path):
+    path = os.path.abspath(path)
     binary = C.go_build("c11")
     out = os.path.join(C.WORK, "cases", "c11_replay.jsonl")
     rc, log = C.run_harness(binary, ["-replay", path, "-out", out], timeout=600, env={"VERIF_REPO": C.REPO})
@@ -210,9 +219,11 @@ def replay(run, path):
         print("replay case %d (class %s): model-agrees(as-is)=%d model-agrees(repaired)=%d spec=%d first-failing-step=%d verdict=%s"
               % (c["id"], c["class"], r[1], r[5], r[2], r[6], r[7:]))
         for i, (o, s) in enumerate(zip(c["ops"], c["obs"]["steps"])):
-            print("  %2d %-6s %-24s %-22s %-12s valid=%-5s -> path=%r err=%s ls=%s" % (
-                i, o["op"], o.get("key") or (o.get("ns", "") + "/" + o.get("name", "")), o.get("type", ""), o.get("payload", ""),
-                o.get("valid"), s.get("path"), s.get("err"), [(f["name"], oct(f["mode"]), f["hash"][:6]) for f in s["ls"]]))
+            key = o.get("key", "") if o["op"] in ("get", "delete") else o.get("ns", "") + "/" + o.get("name", "")
+            print("  %2d %-6s %-24r %-22s %-14s %-13s -> path=%r err=%s ls=%s" % (
+                i, o["op"] + (":" + o["ann"] if o.get("ann") else ""), key, o.get("type", ""), o.get("payload", ""),
+                ("valid=%s" % o.get("valid")) if o["op"] == "upsert" else "", s.get("path"), s.get("err"),
+                [(f["name"], oct(f["mode"]), f["hash"][:6]) for f in s["ls"]]))
     st = new_stats()
     judge(run, cases, res, st)
     finish(run, st)
